@@ -235,9 +235,58 @@ fn scaling_case(rep: &mut Report, solver: Solver, prob: &IvpProblem, t0: f64, sp
     }
 }
 
+/// y' = -y^3, y(0) = 1: smooth, but not globally Lipschitz - a trial step far too long for it overflows its
+/// stages. The trial has to be rejected like any other and the solve has to finish (D45: the overflowed stage
+/// stayed in the stage matrix, 0 x inf made the next trial's state NaN, the step size became NaN and the
+/// Runge-Kutta steppers returned Redo for ever). y(t) = 1/sqrt(1 + 2t).
+struct CubicDecay;
+impl Rhs<f64> for CubicDecay {
+    fn dim(&self) -> usize {
+        1
+    }
+    fn eval(&self, _t: f64, y: &[f64], out: &mut [f64]) {
+        out[0] = -y[0] * y[0] * y[0];
+    }
+}
+
+fn overflowing_trial_case(rep: &mut Report, i: u64, seed: u64) {
+    let mut rng = if i < 8 { Rng::for_case(4545, "c05-cubic-anchor", i) } else { Rng::for_case(seed, "c05-cubic", i) };
+    let solver = if i % 2 == 0 { Solver::RK45 } else { Solver::RK23 };
+    let t1 = rng.log10(1.0, 2.5);
+    let tol = rng.log10(-8.0, -4.0);
+    let cfg = Cfg { t0: 0.0, t1, dt_min: 1e-7, dt_max: t1 * rng.log10(-0.3, 3.0).max(60.0 / t1), tol };
+    let opts = Opts { budget: 400_000, max_items: 100_000, mode: if rng.bool() { DimMode::Static } else { DimMode::Dynamic }, ..Default::default() };
+    let out = solve_real(solver, &cfg, &[1.0], &CubicDecay, &opts);
+    rep.eval();
+    rep.count(&format!("{}/cubic_decay_with_a_huge_step_cap", solver.name()), 1);
+    let case = || J::obj().set("solver", solver.name()).set("problem", "y' = -y^3, y(0) = 1").set("cfg", cfg.to_json()).set("derivative_calls", out.calls);
+    if let Some((m, l)) = &out.panic {
+        rep.violation(&format!("{}/panic", solver.name()), case(), format!("panicked: '{}' at {}", m, l));
+        return;
+    }
+    if out.budget_hit {
+        rep.violation(&format!("{}/work-budget-exhausted", solver.name()), case(), format!("still calling the derivative after {} calls (the first trial step overflows; it must be rejected and shortened)", opts.budget));
+        return;
+    }
+    let pts = out.ok_points();
+    let exact = 1.0 / (1.0 + 2.0 * t1).sqrt();
+    match pts.last() {
+        Some((t, y)) if out.n_err() == 0 && *t == t1 => {
+            rep.nontrivial(CaseHash::new("c05-cubic").u(solver.idx() as u64).f(t1).f(cfg.dt_max).f(tol).0);
+            rep.max(&format!("{}/cubic_decay_calls", solver.name()), out.calls as f64);
+            // (sanity only - accuracy is C04's statement: the tolerance is per unit step, the interval up to 300 long)
+            if !((y[0] - exact).abs() <= 10.0 * tol * t1 + 1e-2 * exact) {
+                rep.violation(&format!("{}/cubic-decay-end-value", solver.name()), case(), format!("y({}) = {:e}, exact {:e}", t1, y[0], exact));
+            }
+        }
+        _ => rep.violation(&format!("{}/error-on-smooth-problem/cubic-decay", solver.name()), case(), format!("the solve did not reach the end: {} points, {} Err items", pts.len(), out.n_err())),
+    }
+}
+
 pub fn stages(ctx: &Ctx) -> Vec<Stage> {
     let seed = ctx.seed;
     let mut st = vec![];
+    st.push(Stage::new("overflowing-trial-step", ctx.tier.pick(400, 4_000), move |i, rep| overflowing_trial_case(rep, i, seed)));
     st.push(Stage::new("anchors", 6 * 6 * 2, move |i, rep| {
         let solver = Solver::ADAPTIVE[(i % 6) as usize];
         let flavour = ((i / 6) % 6) as usize;
@@ -359,6 +408,9 @@ pub fn stages(ctx: &Ctx) -> Vec<Stage> {
 
 pub fn thresholds(ctx: &Ctx, rep: &Report) -> Vec<Threshold> {
     let mut t = vec![];
+    for sv in [Solver::RK45, Solver::RK23] {
+        t.push(Threshold { what: format!("{}: cubic decay with a step cap far beyond what the problem tolerates", sv.name()), required: ctx.tier.pick(200.0, 2_000.0), observed: rep.counter(&format!("{}/cubic_decay_with_a_huge_step_cap", sv.name())) as f64 });
+    }
     for s in Solver::ADAPTIVE {
         t.push(Threshold { what: format!("{}: solves with step variation >= 2x", s.name()), required: ctx.tier.pick(20.0, 1_000.0), observed: rep.counter(&format!("{}/solves_with_step_variation", s.name())) as f64 });
         t.push(Threshold { what: format!("{}: solves over Complex<f64>", s.name()), required: ctx.tier.pick(200.0, 4_000.0), observed: rep.counter(&format!("complex/{}/solves", s.name())) as f64 });
